@@ -88,6 +88,31 @@ def run(chk):
     run_scenarios(chk, 'a call after one that was cut short, same function: nothing of the earlier call is executed during it', st, {'C02', 'C01'},
                   nontrivial=lambda sc, o: True, dist=lambda sc, o: {'first_call': 'left open' if sc.get('overlap') else 'closed early' if sc['ops'][0].get('abandon') else 'failed with a long sibling',
                                                                      'start': sc['pool']['start_method']})
+    # a lazy call that was created but not started yet is no call at all: another call made meanwhile runs as if it were alone, and the
+    # lazy one — started afterwards — as well (each task entered once, with its own call's function and arguments)
+    nl = []
+    for _ in range(60 if chk.tier == 'quick' else 900):
+        nj = rng.choice([1, 2, 3])
+        lazy = {'op': rng.choice(['imap', 'imap', 'imap_unordered']), 'n': rng.randint(2, 8), 'chunk_size': rng.choice([1, 2]), 'elem': rng.choice(['tuple', 'dict', 'scalar', 'list']),
+                'consume': 0}
+        other = {'op': rng.choice(['map_unordered', 'imap_unordered', 'map', 'imap']), 'n': rng.randint(2, 8), 'chunk_size': rng.choice([1, 2]),
+                 'elem': rng.choice(['tuple', 'dict', 'scalar', 'list'])}
+        nl.append({'seed': rng.randint(0, 10 ** 6), 'pool': {'n_jobs': nj, 'start_method': rng.choice(['fork', 'threading']), **({'keep_alive': True} if rng.random() < .5 else {})},
+                   'ops': [lazy, other, {'op': 'resume', 'of': 0}], 'same_func': rng.random() < .5, 'relax_shape': True, 'all_valid': True})
+    run_scenarios(chk, 'a lazy call created but not started, another call, then the lazy one (DetSim)', nl, {'C02', 'C01'}, nontrivial=lambda sc, o: True,
+                  dist=lambda sc, o: {'lazy': sc['ops'][0]['op'], 'other': sc['ops'][1]['op'], 'elem': sc['ops'][0]['elem'] + '/' + sc['ops'][1]['elem']})
+    # workers that are still starting up when the next call hands out its parameters: started by an apply submission that is over before
+    # the others have come up, or replaced a moment ago
+    bs = []
+    for _ in range(60 if chk.tier == 'quick' else 900):
+        nj = rng.choice([2, 3, 4])
+        first = {'op': 'apply_batch', 'tasks': [{'idx': 0}], 'dur': {'kind': 'map', 'map': {}, 'default': 0.0}, 'get_timeout': 30}
+        later = {'op': rng.choice(['map', 'map_unordered', 'imap', 'imap_unordered']), 'n': rng.randint(nj, 3 * nj), 'chunk_size': 1, 'elem': rng.choice(['scalar', 'tuple'])}
+        slow = rng.sample(range(nj), rng.randint(1, nj - 1))
+        bs.append({'seed': rng.randint(0, 10 ** 6), 'pool': {'n_jobs': nj, 'start_method': 'fork'}, 'ops': [first, later], 'all_valid': True,
+                   'rules': [{'role': 'Worker-%d' % w, 'op': 'array.set', 'obj': 'workers_dead', 'sleep': rng.choice([0.2, 0.5]), 'p': 1.0} for w in slow]})
+    run_scenarios(chk, 'a call whose parameters are handed out while some workers are still starting up (DetSim)', bs, {'C02', 'C01'}, nontrivial=lambda sc, o: True,
+                  dist=lambda sc, o: {'n_jobs': sc['pool']['n_jobs'], 'later': sc['ops'][1]['op']})
     chk.assumptions += ['a task interrupted mid-function counts as entered', 'DetSim scheduler granularity: primitive operations']
 
     def search():
